@@ -86,6 +86,11 @@ func checkC12(c *Ctx, r *Report) {
 	r.floor("R12.2", 2)
 	r.floor("R12.3", 2)
 	crc := c.fnMust("packet", "CRC16")
+	// R12.8: the verdict on a reply depends on the reply alone: nothing on the request path of either
+	// client keeps package-level state (a checksum table filled lazily would be shared by all clients)
+	sharedStateRule(c, r, "R12.8", "modbus client request path", "the request path of both clients (send, read loop, CRC verification, parsing)",
+		[]*ssa.Function{c.fnMust("", "*Client.Do"), c.fnMust("", "*SerialClient.Do"), crc})
+	r.floor("R12.8", 25)
 	guardedFns := map[*ssa.Function]string{}
 	for _, spec := range []struct {
 		name   string
